@@ -30,6 +30,14 @@ PREEMPT_BODY = '''            preempt = sorted(self.users, key=lambda e: e.key)[
                     )
                 )'''
 
+CPUT = '''    def _do_put(self, event: ContainerPut) -> bool:
+        if self._capacity - self._level >= event.amount:
+            self._level += event.amount
+            event.succeed()
+            return True
+        else:
+            return False'''
+
 # kernel (C01, C04-C07): the generated files are Kernel{Res,Cond,Sched}.lean, the bridge theorems are in Props/KernelGen.lean.
 # An optional 7th component selects the occurrence of `old` (0 = first, -1 = last).
 K = [
@@ -75,6 +83,7 @@ K = [
      '            # satisfiable now; do not leave them stranded.\n            self.resource._trigger_put(None)', 'VIOLATION'),
     ('C07', 'KernelRes', BASE, '        if not self.triggered:\n            self.resource.get_queue.remove(self)', '        if self.triggered:\n            self.resource.get_queue.remove(self)', 'VIOLATION'),
     ('C07', 'KernelRes', CONT, 'if self._level >= event.amount:', 'if event.amount <= self._level:', 'OK'),
+    ('C07', 'KernelRes', CONT, CPUT, CPUT.replace('event', 'req'), 'OK'),
     ('C07', 'KernelRes', STORE, '    def _do_get(self, event: StoreGet) -> bool:\n        if self.items:', '    def _do_get(self, evt: StoreGet) -> bool:\n        event = evt\n        if self.items:', 'VIOLATION'),
     # ---- C05: conditions
     ('C05', 'KernelCond', EVENTS, 'return len(events) == count', 'return len(events) <= count', 'VIOLATION'),
